@@ -12,10 +12,10 @@ echo "--- baseline suite in worktree (with change)"
 base=$(python3 tools/check_baseline.py --repo $wt | head -3); echo "$base"
 echo "--- demo with change"
 (cd $wt && NUMBA_DISABLE_JIT=1 PYTHONPATH=$wt timeout 600 /venv/bin/python -W ignore demo.py > /tmp/demo_with.log 2>&1); with=$?; tail -3 /tmp/demo_with.log
-git -C $wt stash -q
+git -C $wt apply -R /verif/$d/patch.diff
 echo "--- demo without change"
 (cd $wt && NUMBA_DISABLE_JIT=1 PYTHONPATH=$wt timeout 600 /venv/bin/python -W ignore demo.py > /tmp/demo_without.log 2>&1); without=$?; tail -2 /tmp/demo_without.log
-git -C $wt stash pop -q
+git -C $wt apply /verif/$d/patch.diff
 echo "demo exit with=$with without=$without"
 echo "--- our check ($prop quick) against the changed tree"
 out=$(VERIF_REPO=$wt ./check $prop --tier quick 2>&1); code=$?
@@ -26,7 +26,7 @@ import json
 json.dump({'id': '$id', 'property': '$prop', 'baseline_suite_with_change': """$base""".splitlines()[0] if """$base""" else '',
            'demo_exit_with_change': $with, 'demo_exit_without_change': $without, 'quick_check_exit_on_changed_tree': $code,
            'caught_by_quick': $code == 1,
-           'ran': ['python3 tools/check_baseline.py --repo <worktree>', 'demo.py with and without the change (git stash)', 'VERIF_REPO=<worktree> ./check $prop --tier quick'],
+           'ran': ['python3 tools/check_baseline.py --repo <worktree>', 'demo.py with and without the change (git apply -R / git apply of patch.diff)', 'VERIF_REPO=<worktree> ./check $prop --tier quick'],
            'needs_to_manifest': 'see MUTANT.md'}, open('$d/meta.json', 'w'), indent=1)
 PY
 # restore evidence of the real tree for this property
